@@ -4,6 +4,7 @@ The GCD field width `gb` is instantiated here with hardware floats, as deployed 
 -/
 import Qco.Driver.Hex
 import Qco.Spec.File
+import Qco.Train.WFc
 namespace Qco.Driver
 open Qco
 
@@ -89,9 +90,88 @@ def cmdRawBytes (args : List String) : String :=
       | none => "err InvalidArgument"
   | _ => "bad-args"
 
+def parseNums (s : String) : List Nat :=
+  if s == "-" || s == "" then [] else (s.splitOn ",").map Hex.toNat
+
+def b01 (b : Bool) : String := if b then "1" else "0"
+
+/-- number of maximal runs of `v` in `xs` -/
+def countRuns (v : Nat) (xs : List Nat) : Nat :=
+  (xs.foldl (fun (acc : Nat × Bool) x =>
+      if x == v then (if acc.2 then acc.1 else acc.1 + 1, true) else (acc.1, false)) (0, false)).1
+
+/-- most frequent value and its count (ties: any) -/
+def dominant (xs : List Nat) : Nat × Nat :=
+  match xs with
+  | [] => (0, 0)
+  | _ =>
+    -- Boyer–Moore majority candidate (exact when a value has > 50%), then count it
+    let cand := (xs.foldl (fun (acc : Nat × Nat) x =>
+        if acc.2 == 0 then (x, 1) else if x == acc.1 then (acc.1, acc.2 + 1) else (acc.1, acc.2 - 1)) (0, 0)).1
+    (cand, (xs.filter (· == cand)).length)
+
+/-- per-chunk analysis of what the real compressor emitted, against the chunk's numbers -/
+def analyzeChunk (d : DType) (fl : Flags) (level : Nat) (c : DChunk) (vals : List Nat) : String × Option AChunk :=
+  let us := codedUs d fl vals
+  let ps := c.cm.prefixes
+  let blocks := greedyBlocks ps us.length us
+  let bodyB := match blocks with
+    | some bs => bodyBits ps bs
+    | none => 0
+  let W := if d.kind == .bool then 1 else d.uBits
+  let (dom, domCount) := dominant us
+  let runs := countRuns dom us
+  let others := us.length - domCount
+  let maxcode := maxLen (ps.map (·.code))
+  let jumps := (ps.filter (·.jump.isSome)).length
+  let domJump := match findPrefix ps dom with
+    | some i => let p := ps.getD i default; p.jump.isSome && p.lower == p.upper
+    | none => false
+  let tags := String.intercalate "," (
+    (if jumps > 0 then ["runlen"] else []) ++
+    (if ps.any (fun p => p.gcd > 1 && p.lower < p.upper) then ["gcd"] else []) ++
+    (if c.cm.commonGcd.isSome then ["commongcd"] else []) ++
+    (if ps.any (fun p => p.info.k == d.uBits) then ["kfull"] else []) ++
+    (if ps.any (fun p => p.info.k == 0) then ["kzero"] else []) ++
+    (if ps.any (fun p => p.info.r + 1 != 2 ^ p.info.k) then ["msb"] else []) ++
+    (if ps.length > 1 then ["multi"] else []) ++
+    (if fl.order > 0 then ["delta"] else []) ++
+    (if vals.length ≤ fl.order then ["nleorder"] else []))
+  let str := s!"n={b01 (c.cm.n == vals.length)} vals={b01 (chunkVals d fl c == vals)} us={b01 (c.us == us)} " ++
+    s!"bounds={b01 (boundsOk ps)} disj={b01 (disjointB ps)} cover={b01 (coverB ps us)} counts={b01 (countsB ps us)} " ++
+    s!"congr={b01 (congruentB ps us)} tree={b01 (treeB ps)} leaves={b01 (leavesB level ps)} moments={b01 (momentsB d fl vals c.cm)} " ++
+    s!"gcdexact={b01 (gcdExactB gbFloat fl c.cm us)} emptyiff={b01 (ps.isEmpty == us.isEmpty)} grouped={b01 blocks.isSome} " ++
+    s!"bodybits={bodyB} bodybytes={c.cm.bodyBytes} nprefs={ps.length} maxcode={maxcode} W={W} nus={us.length} " ++
+    s!"dom={domCount} runs={runs} others={others} domjump={b01 domJump} allequal={b01 (us.all (· == us.headD 0))} tags={tags}"
+  (str, blocks.map fun bs => { cm := c.cm, blocks := bs })
+
+def cmdEnc (args : List String) : String :=
+  match args with
+  | dt :: level :: order :: gcds :: k :: rest =>
+    match Frozen.dtypeByName dt with
+    | none => "bad-dtype"
+    | some d =>
+      let k := k.toNat!
+      let chunks := (rest.take k).map parseNums
+      let bits := Hex.toBits (rest.getD k "")
+      match decodeFile gbFloat d bits with
+      | .ok f r =>
+        let flExp : Flags := { use5 := true, order := order.toNat!, minCount := true, gcds := gcds == "1" }
+        let per := (f.chunks.zip chunks).map fun (c, vals) => analyzeChunk d f.flags level.toNat! c vals
+        let reenc :=
+          if per.all (fun x => x.2.isSome) then
+            let af : AFile := { flags := f.flags, chunks := per.filterMap (·.2) }
+            b01 (encodeFile gbFloat d af == bits)
+          else "0"
+        s!"ok rest={r.length} flags={b01 (f.flags == flExp)} nchunks={b01 (f.chunks.length == chunks.length)} reenc={reenc} | " ++
+          " | ".intercalate (per.map (·.1))
+      | r => resTag r
+  | _ => "bad-args"
+
 def answer (line : String) : String :=
   match line.trimAscii.toString.splitOn " " with
   | "dec" :: args => cmdDec args
+  | "enc" :: args => cmdEnc args
   | "map" :: args => cmdMap args
   | "mapu" :: args => cmdMapU args
   | "rawbytes" :: args => cmdRawBytes args
